@@ -41,6 +41,12 @@ class StmtMixin:
         if text.startswith("unfold "):
             st.assume(self.truthy(self.spec_text("unfold(%s)" % text[7:], st), st))
             return
+        if text.startswith("set_owner("):
+            call = ast.parse(text, mode="eval").body
+            part, who = self.ev(call.args[0], st, True), self.ev(call.args[1], st, True)
+            arr = st.harr("$owner", z3.ArraySort(z3.IntSort(), z3.IntSort()))
+            st.hset("$owner", z3.Store(arr, part.t, who.t))
+            return
         if text.startswith("use "):
             # use lemma_name(args): instantiate a proved lemma
             self.use_lemma(text[4:], st)
@@ -373,7 +379,10 @@ class StmtMixin:
 
     def st_For(self, node, st):
         n = self.loop_ordinal(node)
-        it = self.ev(node.iter, st)
+        if isinstance(node.iter, (ast.List, ast.Tuple)) and len(node.iter.elts) <= MAX_UNROLL:
+            it = mk_tuple([self.ev(e, st) for e in node.iter.elts])     # `for s in [-1, 1]`: a literal is unrolled
+        else:
+            it = self.ev(node.iter, st)
         view = self.iter_view(it, st)
         invs = self.contract.loops.get(n)
         if invs is None:
@@ -564,6 +573,7 @@ class StmtMixin:
         s2.cur_loop = list(st.cur_loop)
         s2.exc = st.exc
         s2.qdepth = st.qdepth
+        s2.qids = set(st.qids)
         return s2
 
     def havoc_written(self, written, st, n):
